@@ -84,6 +84,44 @@ def neighbour(rnd, v):
     return v
 
 
+# strings that a normalising, case-folding or width-folding comparison would identify although their code points differ
+LOOKALIKE = [
+    ("\u00e9", "e\u0301"), ("\u212b", "\u00c5"), ("\u00c5", "A\u030a"), ("\uac00", "\u1100\u1161"), ("\u1e0b\u0323", "\u1e0d\u0307"), ("\ufb01", "fi"), ("a", "A"),
+    ("\u00df", "ss"), ("\u03a9", "\u2126"), (" ", "\u00a0"), ("\U0001d15e", "\U0001d157\U0001d165"), ("1", "\uff11"), ("\u0131", "i"), ("", "\u200b"), ("", "\ufeff"), ("\u00e9", "\u00e8"),
+]
+
+
+def inject(rnd_state, v, x):
+    """v with the text x inserted into the first string found inside it (None when v holds no string)."""
+    tag, p = v
+    if tag == "string":
+        i = rnd_state % (len(p) + 1)
+        return ("string", p[:i] + x + p[i:])
+    if tag == "list":
+        for i, e in enumerate(p):
+            r = inject(rnd_state, e, x)
+            if r is not None:
+                return ("list", p[:i] + (r,) + p[i + 1 :])
+        return None
+    if tag == "map":
+        for i, (k, e) in enumerate(p):
+            for which in ((0, 1) if rnd_state % 2 else (1, 0)):
+                r = inject(rnd_state, (k, e)[which], x)
+                if r is not None:
+                    return ("map", p[:i] + (((r, e) if which == 0 else (k, r)),) + p[i + 1 :])
+        return None
+    return None
+
+
+def has_dup_keys(v):
+    tag, p = v
+    if tag == "list":
+        return any(has_dup_keys(e) for e in p)
+    if tag == "map":
+        return len({k for k, _ in p}) != len(p) or any(has_dup_keys(k) or has_dup_keys(e) for k, e in p)
+    return False
+
+
 def shuffled_copy(rnd, v):
     """An equal value built separately (maps with another insertion order, -0.0 for 0.0)."""
     tag, p = v
@@ -201,7 +239,7 @@ def has_special_double(v):
 def ts_lit_with_offset(rnd, v):
     if v[0] != "ts":
         return None
-    off = rnd.choice([0, 330, -480, 60, -1, 840, -840, 1])
+    off = MV.rand_offset(rnd)
     local = v[1] + off * 60 * 10**6
     if not (MV.TS_MIN_US <= local <= MV.TS_MAX_US):
         off = 0
@@ -354,7 +392,14 @@ def run(ctx):
         t = pick_type(rnd)
         a = small_value(rnd, t)
         r = rnd.random()
-        if r < 0.35:
+        if r < 0.08:
+            x, y = rnd.choice(LOOKALIKE)
+            st = rnd.randrange(1000)
+            a2, b2 = inject(st, a, x), inject(st, a, y)
+            if a2 is None or has_dup_keys(a2) or has_dup_keys(b2):
+                continue
+            a, b, kind = (a2, b2, "look-alike") if rnd.random() < 0.5 else (b2, a2, "look-alike")
+        elif r < 0.35:
             b = shuffled_copy(rnd, a)
             kind = "equal-copy"
         elif r < 0.7:
